@@ -265,8 +265,14 @@ def rules(ctx: Ctx) -> None:
             from .c12 import is_mutable_init
             ctx.ob("R13.5", f"provider-class-state:{k.name}.{nm}", not is_mutable_init(val), k.loc(), f"{k.name}.{nm} is not a mutable class-level object shared by all providers", trivial=True)
     # session store takes precedence and falls back to the provider's own source
-    txt = u(lookup.node)
-    ctx.ob("R13.5", "lookup-reads-session-then-source", "_session_metadata" in txt and "_get_table_columns" in txt, lookup.loc(),
+    from .common import session_store
+
+    _, store_attr = session_store(prog)
+    reads_store = any(is_self_attr(n, store_attr) for n in prog.walk_fn(lookup))
+    # the provider's own source: a hook of the base class that the concrete providers override
+    hooks = {n.func.attr for n in prog.walk_fn(lookup) if isinstance(n, ast.Call) and is_self_attr(n.func) and n.func.attr in P.methods
+             and any(n.func.attr in k.methods for k in prog.subclasses(P))}
+    ctx.ob("R13.5", "lookup-reads-session-then-source", reads_store and bool(hooks), lookup.loc(),
            "get_table_columns answers from the session store first, else from the provider's own source", trivial=True)
 
 
